@@ -10,6 +10,9 @@
 package c07
 
 import (
+	"github.com/sergeii/swat4master/pkg/gamespy/serverquery/gs1"
+	"net/netip"
+	"context"
 	"strings"
 	"fmt"
 	"math/rand"
@@ -25,6 +28,24 @@ func init() {
 }
 
 func exec(op string, args []string) []string {
+	if op == "qdial" && len(args) == 1 {
+		// qdial <ip:port>: a status query to an address the socket cannot even be connected to (the limited broadcast address
+		// without SO_BROADCAST: EACCES; elsewhere: no route): no datagram is exchanged; the query must come back with an error
+		ap, err := netip.ParseAddrPort(args[0])
+		if err != nil {
+			return []string{"bad-op"}
+		}
+		var qerr error
+		txt, ok := core.Guard(func() { _, qerr = gs1.Query(context.Background(), ap, 150*time.Millisecond) })
+		switch {
+		case !ok:
+			return []string{"panic:" + strings.ReplaceAll(txt, " ", "_")}
+		case qerr != nil:
+			return []string{"error"}
+		default:
+			return []string{"answered"}
+		}
+	}
 	if len(args) != 2 {
 		return []string{"bad-op"}
 	}
@@ -135,6 +156,11 @@ func shuffle(rng *rand.Rand, ds [][]byte) [][]byte {
 var mutBytes = []byte{'\\', '_', 0x00, '1', '0', '-', 0xff, 'a', '.', ' '}
 
 func gen(rng *rand.Rand, tier core.Tier, emit core.Emit) {
+	// a probe whose socket cannot be connected at all (limited broadcast without SO_BROADCAST; port 0)
+	emit("qdial", "[fe80::1%nosuchif0]:10481") // connect: invalid argument (a link-local address without a usable zone)
+	emit("qdial", "[ff02::1]:1")
+	emit("qdial", "255.255.255.255:10481") // connects; the write is refused
+
 	k := 1
 	if tier == core.Thorough {
 		k = 12
